@@ -243,6 +243,108 @@ theorem step_addSeg (s : Sys) (a : Abs) (docs : List DocRec) (hI : Inv s) (hR : 
     rw [h2, List.append_assoc, List.append_assoc]
     exact List.Perm.append_left _ List.perm_append_comm
 
+theorem nonEmpty_false_live (e : Entry) (h : nonEmpty e = false) : liveDocsOf e = [] := by
+  unfold nonEmpty at h
+  unfold liveDocsOf
+  cases hl : liveDocs e.docs e.alive with
+  | nil => rfl
+  | cons a as => rw [hl] at h; simp at h
+
+theorem flatten_filter_nonEmpty {β} (l : List Entry) (f : Entry → List β)
+    (hf : ∀ e ∈ l, nonEmpty e = false → f e = []) :
+    ((l.filter nonEmpty).map f).flatten = (l.map f).flatten := by
+  induction l with
+  | nil => rfl
+  | cons e rest ih =>
+    have ih' := ih (fun x hx => hf x (by simp [hx]))
+    cases he : nonEmpty e with
+    | true => simp [List.filter_cons, he, ih']
+    | false => simp [List.filter_cons, he, ih', hf e (by simp) he]
+
+theorem filter_filter_comm {α} (p q : α → Bool) (l : List α) :
+    (l.filter p).filter q = (l.filter q).filter p := by
+  rw [List.filter_filter, List.filter_filter]
+  congr 1
+  funext a
+  exact Bool.and_comm _ _
+
+/-- `remove_empty_segments`: committed segments without a live document leave the register and
+meta.json; nothing a searcher or the next commit sees changes, and a running merge that had such
+a segment among its sources becomes stale -/
+theorem step_removeEmpty (s : Sys) (a : Abs) (hI : Inv s) (hR : Rel s a) :
+    Inv (s.step .removeEmpty) ∧ Rel (s.step .removeEmpty) (a.step .removeEmpty) := by
+  have hcom : (s.step .removeEmpty).st.committed = s.st.committed.filter nonEmpty := rfl
+  have hpubl : (s.step .removeEmpty).st.published = s.st.published.filter nonEmpty := rfl
+  have hunc : (s.step .removeEmpty).st.uncommitted = s.st.uncommitted := rfl
+  have hq : (s.step .removeEmpty).st.queue = s.st.queue := rfl
+  have hc0 : (s.step .removeEmpty).st.committedOpstamp = s.st.committedOpstamp := rfl
+  have hmem : ∀ e, e ∈ s.st.uncommitted ++ s.st.committed.filter nonEmpty → e ∈ s.st.uncommitted ++ s.st.committed := by
+    intro e he
+    rw [List.mem_append] at he ⊢
+    rcases he with he | he
+    · exact Or.inl he
+    · exact Or.inr (List.mem_filter.1 he).1
+  have hlive : ∀ l : List Entry, ((l.filter nonEmpty).map liveDocsOf).flatten = (l.map liveDocsOf).flatten :=
+    fun l => flatten_filter_nonEmpty l liveDocsOf (fun e _ h => nonEmpty_false_live e h)
+  have hall : ∀ l : List Entry, ((l.filter nonEmpty).map (docsAll s.st.queue)).flatten
+      = (l.map (docsAll s.st.queue)).flatten :=
+    fun l => flatten_filter_nonEmpty l _ (fun e _ h => docsAll_nil_of_live_nil _ e (nonEmpty_false_live e h))
+  have hpubd : pubDocs (s.step .removeEmpty).st = pubDocs s.st := by
+    simp only [pubDocs, hpubl]; exact hlive _
+  have hpend : pendDocs (s.step .removeEmpty).st = pendDocs s.st := by
+    simp only [pendDocs, hunc, hcom, hq, List.map_append, List.flatten_append]
+    rw [hall]
+  constructor
+  · refine { ops_lt := hI.ops_lt, c_lt := hI.c_lt, ops_ne := hI.ops_ne, wf := ?_, pwf := ?_,
+             comD1 := ?_, comD2 := ?_, pubE := ?_, ids := ?_, pids := ?_, repoch := hI.repoch, run := ?_ }
+    · intro e he
+      rw [hunc, hcom] at he
+      exact hI.wf e (hmem e he)
+    · intro e he
+      rw [hpubl] at he
+      exact hI.pwf e (List.mem_filter.1 he).1
+    · intro e he
+      rw [hcom] at he
+      exact hI.comD1 e (List.mem_filter.1 he).1
+    · intro e he e' he'
+      rw [hcom] at he he'
+      exact hI.comD2 e (List.mem_filter.1 he).1 e' (List.mem_filter.1 he').1
+    · rcases hI.pubE with h | h
+      · left; rw [hcom, h]; rfl
+      · right
+        rw [hpubd, hcom, hlive]
+        exact h
+    · rw [hunc, hcom]
+      exact hI.ids.sublist (((List.Sublist.refl _).append List.filter_sublist).map _)
+    · rw [hpubl]
+      exact hI.pids.sublist (List.filter_sublist.map _)
+    · intro r hr hep
+      have hr0 := hI.run r hr hep
+      refine { srcs_ne := hr0.srcs_ne, srcs_lt := hr0.srcs_lt, mwf := ?_, pendAll := ?_, pubC := ?_ }
+      · intro m hm
+        obtain ⟨h1, h2, h3, h4⟩ := hr0.mwf m hm
+        refine ⟨h1, h2, h3, ?_⟩
+        intro e he
+        rw [hunc, hcom] at he
+        exact h4 e (hmem e he)
+      · intro hc
+        rw [hunc, hcom] at hc ⊢
+        have hc' := containsAll_mono _ _ _ hmem hc
+        rw [hq, List.filter_append, filter_filter_comm, List.map_append, List.flatten_append, hall,
+          ← List.flatten_append, ← List.map_append, ← List.filter_append]
+        exact hr0.pendAll hc'
+      · intro hc
+        rw [hcom] at hc ⊢
+        have hc' := containsAll_mono _ _ _ (fun e he => (List.mem_filter.1 he).1) hc
+        obtain ⟨h1, h2⟩ := hr0.pubC hc'
+        rw [hq, hc0]
+        constructor
+        · rw [filter_filter_comm, hlive]
+          exact h1
+        · intro m hm e he
+          exact h2 m hm e (List.mem_filter.1 he).1
+  · exact ⟨by rw [hpubd]; exact hR.1, by rw [hpend]; exact hR.2⟩
+
 theorem step_commit (s : Sys) (a : Abs) (hI : Inv s) (hR : Rel s a) :
     Inv (s.step .commit) ∧ Rel (s.step .commit) (a.step .commit) := by
   let reg := s.st.uncommitted ++ s.st.committed
